@@ -84,9 +84,9 @@ Section DerivThm.
   (** reference layout: row 2j-1 (cos) and row 2j (sin) of wavenumber j *)
   Theorem dlon_pairs_ref R (x : arr2) j l :
     (1 <= j)%nat -> (2 * j < R)%nat ->
-    dlon_ref R x (2 * j - 1) l = lit j * x (2 * j)%nat l /\
-    dlon_ref R x (2 * j) l = - (lit j * x (2 * j - 1)%nat l) /\
-    dlon_ref R x 0 l = 0.
+    dlon_ref R x (2 * j - 1)%nat l = lit j * x (2 * j)%nat l /\
+    dlon_ref R x (2 * j)%nat l = - (lit j * x (2 * j - 1)%nat l) /\
+    dlon_ref R x 0%nat l = 0.
   Proof.
     intros Hj HR. repeat split.
     - rewrite dlon_ref_unfold by lia.
@@ -104,8 +104,8 @@ Section DerivThm.
   (** fast layout: row 2j (cos) and row 2j+1 (sin) of wavenumber off+j *)
   Theorem dlon_pairs_fast R off (x : arr2) j l :
     (2 * j + 1 < R)%nat ->
-    dlon_fast R off x (2 * j) l = lit (off + j) * x (2 * j + 1)%nat l /\
-    dlon_fast R off x (2 * j + 1) l = - (lit (off + j) * x (2 * j)%nat l).
+    dlon_fast R off x (2 * j)%nat l = lit (off + j) * x (2 * j + 1)%nat l /\
+    dlon_fast R off x (2 * j + 1)%nat l = - (lit (off + j) * x (2 * j)%nat l).
   Proof.
     intros HR. split.
     - rewrite dlon_fast_unfold by lia.
@@ -218,4 +218,134 @@ Section DerivThm.
     - intros H. field. exact H.
     - intros mask. reflexivity.
   Qed.
+
+  Lemma mul_cancel_r (k t : F) : t <> 0 -> k * t = 0 -> k = 0.
+  Proof. intros Ht H. transitivity (k * t / t); [field; exact Ht|]. rewrite H. field. exact Ht. Qed.
+
+  (** *** Laplacian and its inverse *)
+  Lemma lap_eig_val L r l :
+    lap_eig L r l = - lit (laxis L l) * (lit (laxis L l) + 1) / (r * r).
+  Proof. unfold lap_eig, lap_eig_expr. cbn [lit]. replace (0 + 1) with 1 by ring. reflexivity. Qed.
+
+  Theorem lap_inverse L r (x : arr2) i l :
+    r <> 0 -> (1 <= l < L)%nat -> lit l <> 0 -> lit l + 1 <> 0 ->
+    laplacian L r (inverse_laplacian L r x) i l = x i l /\
+    inverse_laplacian L r (laplacian L r x) i l = x i l.
+  Proof.
+    intros Hr Hl H0 H1. unfold laplacian, inverse_laplacian, inv_eig.
+    destruct (Nat.eqb_spec l 0); [lia|]. destruct (Nat.leb_spec L l); [lia|].
+    rewrite lap_eig_val, laxis_lt by lia.
+    assert (Hn : - lit l <> 0) by (intro E; apply H0; transitivity (- - lit l); [ring|rewrite E; ring]).
+    split; field; repeat split; assumption.
+  Qed.
+
+  Theorem inverse_laplacian_zero L r (x : arr2) i l :
+    (l = 0 \/ L <= l)%nat -> inverse_laplacian L r x i l = 0.
+  Proof.
+    intros H. unfold inverse_laplacian, inv_eig.
+    destruct (Nat.eqb_spec l 0); [ring|]. destruct (Nat.leb_spec L l); [ring|lia].
+  Qed.
+
+  Lemma laplacian_padded L r (x : arr2) i l : (l = 0 \/ L <= l)%nat -> r <> 0 -> laplacian L r x i l = 0.
+  Proof.
+    intros H Hr. unfold laplacian. rewrite lap_eig_val.
+    replace (laxis L l) with 0%nat.
+    - cbn [lit]. field. exact Hr.
+    - destruct H as [->|H]; [unfold laxis; destruct (Nat.ltb 0 L); reflexivity|now rewrite laxis_ge].
+  Qed.
+
+  (** *** the cos^2 identity:  (D1 D1 - m^2) x = (1 - M_mu M_mu)(r^2 laplacian x)  at |m| <= l <= L-3 *)
+  Section Cos2.
+    Variables (L C : nat) (a b x : nat -> nat -> F) (r : F) (i l mn : nat).
+    Hypothesis Hr : r <> 0.
+    Hypothesis HLC : (L <= C)%nat.
+    Hypothesis Hl : (l + 2 < L)%nat.
+    Hypothesis Hm : (mn <= l)%nat.
+    (** table hypotheses (H_b_shift, H_eps2), only at the entries that are used *)
+    Hypothesis Hb0 : b i l = a i (S l).
+    Hypothesis Hb1 : (1 <= l)%nat -> b i (l - 1)%nat = a i l.
+    Hypothesis Ha1 : a i (S l) * a i (S l) = a2_expr 1 (lit (S l)) (lit mn).
+    Hypothesis Ha0 : (1 <= l)%nat -> a i l * a i l = a2_expr 1 (lit l) (lit mn).
+    (** the denominators of the code and the factor 2l+1 are invertible (true in characteristic 0) *)
+    Hypothesis Hd1 : lit 4 * (lit (S l) * lit (S l)) - lit 1 <> 0.
+    Hypothesis Hd0 : lit 4 * (lit l * lit l) - lit 1 <> 0.
+    Hypothesis H2l1 : (1 + 1) * lit l + 1 <> 0.
+
+    Let y : nat -> nat -> F := fun i l => laplacian L r x i l * (r * r).
+
+    Lemma y_val k : (k < L)%nat -> y i k = - lit k * (lit k + 1) * x i k.
+    Proof. intros Hk. unfold y, laplacian. rewrite lap_eig_val, laxis_lt by assumption. field. exact Hr. Qed.
+
+    Lemma cos2_diag :
+      let e1 := a i (S l) in
+      let e0 := if Nat.eqb l 0 then 0 else a i l in
+      - (lit mn * lit mn) + lit l * (lit l + 1)
+      - e1 * e1 * (lit l * ((1 + 1) * lit l + (1 + 1 + 1)))
+      - e0 * e0 * ((lit l + 1) * ((1 + 1) * lit l - 1)) = 0.
+    Proof.
+      cbv zeta.
+      pose proof (proj1 (weight_exprs (lit (S l)) (lit mn)) Hd1) as E1. rewrite <- Ha1 in E1.
+      set (e1 := a i (S l)) in *.
+      set (t := (1 + 1) * lit l + 1) in *.
+      destruct (Nat.eqb_spec l 0) as [Hl0|Hl0].
+      - assert (mn = 0)%nat by lia. subst mn l. cbn [lit] in *. ring.
+      - pose proof (proj1 (weight_exprs (lit l) (lit mn)) Hd0) as E0. rewrite <- Ha0 in E0 by lia.
+        set (e0 := a i l) in *.
+        set (K := - (lit mn * lit mn) + lit l * (lit l + 1)
+                  - e1 * e1 * (lit l * ((1 + 1) * lit l + (1 + 1 + 1)))
+                  - e0 * e0 * ((lit l + 1) * ((1 + 1) * lit l - 1))).
+        assert (HK : K * t = 0).
+        { cbn [lit] in E1, E0.
+          transitivity (- lit l * (e1 * e1 * ((0 + 1 + 1 + 1 + 1) * ((lit l + 1) * (lit l + 1)) - (0 + 1))
+                                   - ((lit l + 1) * (lit l + 1) - lit mn * lit mn))
+                        - (lit l + 1) * (e0 * e0 * ((0 + 1 + 1 + 1 + 1) * (lit l * lit l) - (0 + 1))
+                                         - (lit l * lit l - lit mn * lit mn))).
+          - unfold K, t. ring.
+          - rewrite E1, E0. ring. }
+        exact (mul_cancel_r K t H2l1 HK).
+    Qed.
+
+    Lemma lit_pred k : (1 <= k)%nat -> lit (k - 1) = lit k - 1.
+    Proof. intros H. replace k with (S (k - 1)) at 2 by lia. cbn [lit]. ring. Qed.
+
+    Theorem cos2_laplacian_identity :
+      D1 L C a b (D1 L C a b x) i l - lit mn * lit mn * x i l
+      = y i l - Mmu C a b (Mmu C a b y) i l.
+    Proof.
+      pose proof cos2_diag as D. cbv zeta in D.
+      assert (Hmn2 : lit mn * lit mn =
+                     lit l * (lit l + 1)
+                     - a i (S l) * a i (S l) * (lit l * ((1 + 1) * lit l + (1 + 1 + 1)))
+                     - (if Nat.eqb l 0 then 0 else a i l) * (if Nat.eqb l 0 then 0 else a i l)
+                       * ((lit l + 1) * ((1 + 1) * lit l - 1))).
+      { match type of D with ?e = 0 => transitivity (lit l * (lit l + 1)
+                     - a i (S l) * a i (S l) * (lit l * ((1 + 1) * lit l + (1 + 1 + 1)))
+                     - (if Nat.eqb l 0 then 0 else a i l) * (if Nat.eqb l 0 then 0 else a i l)
+                       * ((lit l + 1) * ((1 + 1) * lit l - 1)) - e) end; [ring|rewrite D; ring]. }
+      rewrite Hmn2. clear D Hmn2.
+      rewrite (D1_entries L C a b (D1 L C a b x) i l) by lia.
+      rewrite (Mmu_entries C a b (Mmu C a b y) i l) by lia.
+      unfold tri.
+      destruct (Nat.ltb_spec (S l) C) as [_|]; [|lia].
+      rewrite (D1_entries L C a b x i (S l)), (Mmu_entries C a b y i (S l)) by lia.
+      unfold tri.
+      destruct (Nat.ltb_spec (S (S l)) C) as [_|]; [|lia].
+      destruct (Nat.eqb_spec (S l) 0) as [|_]; [lia|].
+      replace (S l - 1)%nat with l by lia.
+      rewrite !(laxis_lt L (S l)), !(laxis_lt L (S (S l))), !(laxis_lt L l) by lia.
+      rewrite !y_val by lia. rewrite Hb0.
+      destruct (Nat.eqb_spec l 0) as [Hl0|Hl0].
+      - rewrite Hl0. cbn [lit]. ring.
+      - rewrite (D1_entries L C a b x i (l - 1)), (Mmu_entries C a b y i (l - 1)) by lia.
+        unfold tri.
+        replace (S (l - 1)) with l by lia.
+        destruct (Nat.ltb_spec l C) as [_|]; [|lia].
+        rewrite !(laxis_lt L l), !(laxis_lt L (l - 1)) by lia.
+        rewrite !y_val by lia. rewrite (Hb1 ltac:(lia)).
+        destruct (Nat.eqb_spec (l - 1) 0) as [Hl1|Hl1].
+        + rewrite !lit_pred by lia. cbn [lit]. ring.
+        + rewrite !(laxis_lt L (l - 1 - 1)) by lia. rewrite ?y_val by lia.
+          rewrite (lit_pred (l - 1)) by lia. rewrite !(lit_pred l) by lia. cbn [lit]. ring.
+    Qed.
+  End Cos2.
 End DerivThm.
